@@ -1,0 +1,32 @@
+//go:build verif
+
+package compose
+
+import "github.com/cloudwego/eino/schema"
+
+// Re-exports for the C08 correspondence harness (/verif/harness/cmd/c08): the
+// streamReaderPacker wrappers of compose/stream_reader.go driven from outside the package.
+
+// VerifC08Copy copies a reader through streamReaderPacker.copy.
+func VerifC08Copy[T any](sr *schema.StreamReader[T], n int) []*schema.StreamReader[T] {
+	cs := packStreamReader(sr).copy(n)
+	out := make([]*schema.StreamReader[T], len(cs))
+	for i, c := range cs {
+		out[i], _ = unpackStreamReader[T](c)
+	}
+	return out
+}
+
+// VerifC08Merge merges readers through streamReaderPacker.merge (first reader is the receiver).
+func VerifC08Merge[T any](srs []*schema.StreamReader[T]) *schema.StreamReader[T] {
+	rest := make([]streamReader, len(srs)-1)
+	for i := range rest {
+		rest[i] = packStreamReader(srs[i+1])
+	}
+	m := packStreamReader(srs[0]).merge(rest)
+	if m == nil {
+		return nil
+	}
+	out, _ := unpackStreamReader[T](m)
+	return out
+}
